@@ -192,6 +192,13 @@ fn apply<T: Sc>(model: &mut SeparableModel<T>, e: &EdgeJ, ctx: &str, after_misus
                     rep.check("C17", m.nrows() == NX && m.ncols() == e.cfg.funs.len(), 0.0, || {
                         det("mis-shaped matrix", format!("{}x{}", m.nrows(), m.ncols()))
                     });
+                    if crate::POISON_MODE.load(std::sync::atomic::Ordering::Relaxed) != 0 {
+                        // C10: under a poisoning allocator a cell that was never written shows the fill pattern
+                        rep.check("C10", matrix_matches(&m, &e.res.cols), 0.0, || {
+                            let got: Vec<Vec<f64>> = (0..m.ncols()).map(|j| (0..m.nrows().min(6)).map(|i| m[(i, j)].to64()).collect()).collect();
+                            det("a builder-made model returned cells that are not the computed values while fresh memory is filled with a pattern (never written?)", format!("{got:?}"))
+                        });
+                    }
                     rep.check(c16, matrix_matches(&m, &e.res.cols), 0.0, || {
                         let got: Vec<Vec<f64>> = (0..m.ncols()).map(|j| (0..m.nrows().min(6)).map(|i| m[(i, j)].to64()).collect()).collect();
                         det("matrix differs cell by cell (first 6 rows shown)", format!("{got:?}"))
